@@ -27,7 +27,13 @@ Inductive case :=
    detector ends the run when nobody makes progress any more), counter = its final value, free: 1 =
    a Lock after everything had ended succeeded within its deadline, 2 = the child died with
    "unlock of unlocked mutex", 3 = the workers stalled / the final Lock did not succeed *)
-| StoreStress (frost : bool) (workers pairs : N) (dones : list N) (counter : N) (free : nat).
+| StoreStress (frost : bool) (workers pairs : N) (dones : list N) (counter : N) (free : nat)
+(* a STARTED Run of a real process of kind k (share file in state sh) is made to fail with an error of
+   class f through the real Coordinator.Execute - the error the real Run returned after it had begun
+   is replaced by one of that class, or the real first protocol message cannot be broadcast
+   (a comm.CommunicationError), or the protocol library itself reports a tss.Error; answered: the peers
+   answer the initiate messages of a retry; impl / real as in Session *)
+| Failed (k : kind) (f : failure) (answered : bool) (sh : share) (impl : list ev) (real : nat).
 
 Definition ev_eqb (a b : ev) : bool :=
   match a, b with
@@ -59,6 +65,8 @@ Definition agree (c : case) : bool :=
   | StoreStress _ workers pairs dones counter free =>
       (* the model (C10_store_stress): every worker finishes, the counter is workers * pairs *)
       stress_ok workers pairs dones counter free
+  | Failed k f a sh impl _ =>
+      feasible_in sh k (failed_outcome k f a) && evs_eqb (session_events New k (failed_outcome k f a)) impl
   end.
 
 Definition judge (c : case) : bool :=
@@ -67,6 +75,7 @@ Definition judge (c : case) : bool :=
   | Sequence ss impl real => sequence_ok impl && Nat.leb real 1
   | Contention ss impl free => contention_ok ss impl && Nat.leb free 1
   | StoreStress _ workers pairs dones counter free => stress_ok workers pairs dones counter free
+  | Failed k f a sh impl real => session_ok k impl && Nat.leb real 1
   end.
 
 Definition kind_ix (k : kind) : N :=
@@ -75,13 +84,17 @@ Definition kind_ix (k : kind) : N :=
 Definition outcome_ix (o : outcome) : N :=
   match o with NeverSilent => 0 | NeverTimeout => 1 | NeverCancelled => 2 | StartMalformed => 3
              | ParamsRejected => 4 | RanFailed => 5 | RanSucceeded => 6 | Refused => 7
-             | ConstructorFails => 8 | Rerun => 9 | CancelledBeforeEntry => 10 end.
+             | ConstructorFails => 8 | Rerun => 9 | CancelledBeforeEntry => 10
+             | PanicBeforeStart => 11 | PanicInRunLate => 12 | PanicAfterRun => 13 end.
+Definition failure_ix (f : failure) : N :=
+  match f with FPlain => 0 | FComm => 1 | FTss => 2 | FSubset => 3 | FCoordinator => 4 end.
 Definition share_ix (sh : share) : N :=
   match sh with Readable => 0 | Missing => 1 | Corrupt => 2 | Unreadable => 3 end.
 
 Definition tag (c : case) : N :=
   match c with
-  | Session k o sh _ _ => (kind_ix k * 12 + outcome_ix o + 100 * share_ix sh)%N
+  | Session k o sh _ _ => (kind_ix k * 16 + outcome_ix o + 100 * share_ix sh)%N
+  | Failed k f a _ _ _ => (4000 + kind_ix k * 10 + failure_ix f * 2 + (if a then 1 else 0))%N
   | Sequence _ _ _ => 1000%N
   | Contention _ _ _ => 2000%N
   | StoreStress frost _ _ _ _ _ => if frost then 3001%N else 3000%N
